@@ -647,6 +647,25 @@ def check_metrics(case):
                 want = 10.0 * math.log10(float(rng_used * rng_used / mse_ex))
                 bound = C_MET * ((10.0 / math.log(10.0)) * (n + 6) * U_ + 2 * U_ * abs(want))
                 out.le("psnr:value = 10 log10(range^2 / mse)", abs(p - want), bound, f"got {p!r}, want {want!r}")
+    # ---- PSNR of the same pair quantised to 8-bit / 16-bit unsigned integers, the way an image loader delivers them (the
+    # difference of two unsigned arrays must not wrap around: psnr promotes to float64 before subtracting)
+    if window and np.all(np.abs(x) < 1e6) and np.all(np.abs(xref) < 1e6):
+        for dt, top in ((np.uint8, 255.0), (np.uint16, 65535.0)):
+            x8 = (np.abs(np.rint(x * 16.0)) % (top + 1.0)).astype(dt)
+            r8 = (np.abs(np.rint(xref * 16.0)) % (top + 1.0)).astype(dt)
+            d8 = x8.astype(float) - r8.astype(float)
+            site8 = f"psnr({np.dtype(dt).name} images)"
+            h8 = (ahash(x8), ahash(r8))
+            ok, p8 = out.call(site8, qs.psnr, x8, r8, top)
+            if not ok:
+                continue
+            out.true(site8 + ":arguments unchanged", (ahash(x8), ahash(r8)) == h8, "an integer image was modified")
+            mse8 = float(np.mean(d8 * d8))
+            if mse8 == 0.0:
+                out.true(site8 + ":equal arrays => +inf", isinstance(p8, float) and p8 == float("inf"), f"got {p8!r}")
+            elif out.true(site8 + ":different arrays => finite", isinstance(p8, float) and math.isfinite(p8), f"got {p8!r}, mse {mse8:.3e}"):
+                want8 = 10.0 * math.log10(top * top / mse8)
+                out.le(site8 + ":value = 10 log10(range^2 / mse)", abs(p8 - want8), 1e-9 * max(1.0, abs(want8)), f"got {p8!r}, want {want8!r}")
     # ---- relative error
     if zero_ref:
         # documented: infinity if the reference norm is zero (checked as documented, not as a violation)
